@@ -101,12 +101,12 @@ def field_kinds(parts):
     return ['n' if p[0] == 2 else 's' for p in parts[1] if p[0] != 0]
 
 
-def value_lists(kinds, nlists, off=0):
+def value_lists(kinds, nlists, off=0, malformed='all'):
     """matched lists: list j gives field i the value (off + j + 7 i) of its
     own kind; then the malformed stream: too few, too many, any type, swapped
-    types, empty strings"""
+    types, empty strings (malformed='one': only one of them, chosen by off)"""
     if not kinds:
-        return [[], [NUM[3][0]], [STR[1][0]]]
+        return [[], [NUM[3][0]], [STR[1][0]]] if malformed == 'all' else [[], [NUM[off % len(NUM)][0]]]
     out = []
     k = len(kinds)
     for j in range(nlists):
@@ -116,14 +116,14 @@ def value_lists(kinds, nlists, off=0):
             vs.append(pool[(off + j + 7 * i) % len(pool)][0])
         out.append(vs)
     allv = [v[0] for v in NUM] + [v[0] for v in STR] + [EMPTY[0]]
-    out.append(out[0][:-1])                                                 # too few
-    out.append(out[0] + [NUM[12][0]])                                       # too many
-    out.append([allv[(off + 11 + 5 * i) % len(allv)] for i in range(k)])    # any type
-    out.append([(STR if kd == 'n' else NUM)[(off + i) % 3][0] for i, kd in enumerate(kinds)])
+    mal = [out[0][:-1],                                                    # too few
+           out[0] + [NUM[12][0]],                                          # too many
+           [allv[(off + 11 + 5 * i) % len(allv)] for i in range(k)],       # any type
+           [(STR if kd == 'n' else NUM)[(off + i) % 3][0] for i, kd in enumerate(kinds)]]
     if 's' in kinds:
-        out.append([EMPTY[0] if kd == 's' else NUM[(off + i) % len(NUM)][0]
+        mal.append([EMPTY[0] if kd == 's' else NUM[(off + i) % len(NUM)][0]
                     for i, kd in enumerate(kinds)])
-    return out
+    return out + (mal if malformed == 'all' else [mal[off % len(mal)]])
 
 
 # --------------------------------------------------------------------------
@@ -144,6 +144,18 @@ def first_crash_reason(reasons, novalues=False):
     return None
 
 
+_SEEN = {}
+
+
+def report(ctx, signature, detail, found):
+    """ctx.report keeps every detail of a known finding in memory: after the
+    first 20 of a signature only the input text is kept"""
+    n = _SEEN[signature] = _SEEN.get(signature, 0) + 1
+    if n > 20:
+        detail = {'text': detail.get('text')}
+    return ctx.report(signature, detail, found)
+
+
 def judge(ctx, suite, case, impl, model, reasons, spec, text, novalues=False):
     """impl/model: [0, text-or-calls] | [2, exckind] | [1] (trap).  spec: what
     the specification demands, or None where it is silent.  Returns the
@@ -155,22 +167,22 @@ def judge(ctx, suite, case, impl, model, reasons, spec, text, novalues=False):
         # is exhibited when the specification speaks and is contradicted, or
         # when a host exception escapes.
         contradicts = (impl[0] == 2) or (spec is not None and impl != [0, spec])
-        return ctx.report(f'C19/{suite}-differs-from-model', detail, contradicts)
+        return report(ctx, f'C19/{suite}-differs-from-model', detail, contradicts)
     if impl[0] == 2:
         r = first_crash_reason(reasons, novalues)
         exc = EXCN.get(impl[1], 'other')
         if r is None or CRASH_EXC[r] != exc:
-            return ctx.report(f'C19/host-exception({exc},unexplained)', detail, True)
-        return ctx.report(f'C19/crash({exc},{REASON[r]})', detail, True)
+            return report(ctx, f'C19/host-exception({exc},unexplained)', detail, True)
+        return report(ctx, f'C19/crash({exc},{REASON[r]})', detail, True)
     if impl[0] == 1:
-        return ctx.report('C19/unexpected-trap', detail, True)
+        return report(ctx, 'C19/unexpected-trap', detail, True)
     if spec is None or impl == [0, spec]:
         return 'ok'
     for r, sig in TEXT_SIG:
         if r in reasons:
-            return ctx.report(sig, detail, True)
+            return report(ctx, sig, detail, True)
     # inside the guard theorem C19_using_partial says model = specification
-    return ctx.report('C19/specification-violated(inside-guard)', detail, True)
+    return report(ctx, 'C19/specification-violated(inside-guard)', detail, True)
 
 
 def bad_results(ctx, suite, raws, *mouts):
@@ -366,6 +378,39 @@ def run_compiled_suite(ctx, exe, cases):
     return verdicts
 
 
+def vm_recheck(ctx, exe, cases, n=16):
+    """extraction is not trusted blindly: a seeded sample of formatter jobs is
+    recomputed inside Coq with vm_compute and must equal what the extracted
+    OCaml model printed"""
+    rng = random.Random(f'{ctx.seed}-vm')
+    light = [c for c in cases if len(c['vals']) <= 2]
+    pick = rng.sample(light, min(n, len(light)))
+    jobs = [[3, c['fmt'], [mval(v) for v in c['vals']]] for c in pick]
+    outs = vlib.run_model(exe, jobs)
+    if any(isinstance(o, str) for o in outs):
+        ctx.broken.append('vm_compute re-check: model driver failed')
+        return
+    d = os.path.join(vlib.BUILD, 'cases')
+    os.makedirs(d, exist_ok=True)
+    lines = ['From Coq Require Import ZArith List.', 'From QV Require Import Sx UsingEntry.',
+             'Import ListNotations.', 'Open Scope Z_scope.']
+    for i, (j, o) in enumerate(zip(jobs, outs)):
+        lines.append(f'Example case_{i} : using_entry ({vlib.sx_gallina(j)}) = {vlib.sx_gallina(o)}.')
+        lines.append('Proof. vm_compute. reflexivity. Qed.')
+    path = os.path.join(d, 'C19cases.v')
+    open(path, 'w').write('\n'.join(lines) + '\n')
+    with vlib.Lock():
+        rc, out = vlib._run(['timeout', '300', 'coqc', '-Q', vlib.COQ, 'QV', '-w',
+                             '-notation-overridden,-deprecated-hint-without-locality,-deprecated',
+                             path], cwd=d, timeout=330)
+    if rc != 0:
+        ctx.broken.append('vm_compute re-check of the extracted model failed: ' + out[-400:])
+    ctx.extra['vm_compute_rechecked_cases'] = len(jobs)
+    ctx.obligations.append('extracted_model_equals_vm_compute_on_sample')
+    if rc == 0:
+        ctx.discharged.append('extracted_model_equals_vm_compute_on_sample')
+
+
 SUITE_RUNNERS = {
     'formatter': lambda ctx, exe, cs: run_formatter_suite(ctx, exe, 'formatter', cs),
     'formatter_extreme': lambda ctx, exe, cs: run_formatter_suite(ctx, exe, 'formatter_extreme', cs),
@@ -411,7 +456,7 @@ def main(tier, seed):
     kinds_of = {f: field_kinds(p) for f, p in zip(fmts_all, parts_all)}
     casesA = []
     first_case = {}
-    nl3, nl4 = len(NUM), 6
+    nl3, nl4 = len(NUM), 3
     for f in fmts_all:
         n = len(f)
         kinds = kinds_of.get(f)
@@ -421,10 +466,10 @@ def main(tier, seed):
             lists = value_lists(kinds, nl4, off=rngA.randrange(len(NUM)))
         elif n == 5 and (kinds or rngA.random() < 0.25):
             # length 5: every format with a field, a seeded quarter of the others
-            lists = value_lists(kinds, 4, off=rngA.randrange(len(NUM)))
-        elif n == 6 and rngA.random() < 0.1:
-            # length 6: a seeded tenth of the strings, 2 matched lists each
-            lists = value_lists(kinds, 2, off=rngA.randrange(len(NUM)))
+            lists = value_lists(kinds, 3, off=rngA.randrange(len(NUM)), malformed='one')
+        elif n == 6 and rngA.random() < 0.05:
+            # length 6: a seeded twentieth of the strings
+            lists = value_lists(kinds, 2, off=rngA.randrange(len(NUM)), malformed='one')
         else:
             lists = [[]]        # scanner only (and the formatter without values)
         first_case[f] = len(casesA)
@@ -437,8 +482,8 @@ def main(tier, seed):
                     f'any type, swapped types, empty strings); length 4: every format x {nl4} lists from a '
                     f'seeded offset + malformed'
                     + ('' if quick else '; length 5: every format with a field (a seeded quarter of the '
-                       'others) x 4 lists + malformed; length 6: a seeded tenth x 2 lists + malformed, the '
-                       'rest without values')
+                       'others) x 3 lists + 1 malformed; length 6: a seeded twentieth x 2 lists + 1 '
+                       'malformed, the rest without values')
                     + '; non-trivial = distinct (format, values)')
     run_formatter_suite(ctx, exe, 'formatter', casesA)
     mark('formatter')
@@ -449,6 +494,8 @@ def main(tier, seed):
                     f'{ALPHA!r} ({len(fmts_all)}): fmt_parts of the real constructor = parse_format '
                     f'(constructor results taken from the formatter runs)')
     mark('scanner')
+    vm_recheck(ctx, exe, casesA)
+    mark('vm_compute-recheck')
 
     # extreme values on the numeric field shapes
     shapes = ['#', '###', '#.##', '##.#', '#,###.##', '+#.#', '#.#-', '##+', '-##', '#.', '#,#',
